@@ -65,6 +65,7 @@ struct SliceCase {
     ull n = 0;                                                         // left(n), right(n)
     std::string set; bool set_default = true;                          // trim character set (no NUL)
     std::string sep;                                                   // separator
+    bool prelude = false;                                              // first search another, four times longer separator case-insensitively (what an earlier call leaves behind must not matter)
 };
 
 std::string str(const ST::string &x) { return std::string(x.c_str(), x.size()); }
@@ -128,6 +129,15 @@ std::string check_sep_form(Subj &ss, const std::string &S, const SepArg &arg, co
 
 std::string check_slices(const SliceCase &k) {
     verif::alloc::reset();
+    if (k.prelude) {
+        const size_t L = 4 * k.sep.size() + 1000;
+        std::string ls(L, '\0'); uint64_t x = 0x1234567 ^ L;
+        for (size_t i = 0; i < L; i++) { x = x * 6364136223846793005ull + 1442695040888963407ull; ls[i] = "abcdefghijklmnopqrstuvwxyzABCDEFGHIJKLMNOPQRSTUVWXYZ"[(x >> 33) % 52]; }
+        std::string twin = ls; for (char &ch : twin) ch = (char)(ch ^ 0x20);
+        try { verif::alloc::LibScope l; const ST::string subj = ST::string::from_validated(("head " + twin + " tail").c_str(), L + 10), lsep = ST::string::from_validated(ls.data(), L);
+              (void)subj.before_first(lsep, ST::case_insensitive); (void)subj.after_last(lsep, ST::case_insensitive); (void)subj.before_last(ls.c_str(), ST::case_insensitive); } catch (...) {}
+        verif::alloc::reset();
+    }
     const std::string &S = k.s;
     verif::Exact<char> sx(S);
     verif::Exact<char> setz(k.set, true), sepz(k.sep, true);
@@ -257,7 +267,7 @@ void put32(std::vector<uint8_t> &v, uint32_t x) { for (int i = 0; i < 4; i++) v.
 std::vector<uint8_t> encode_long(const SliceCase &k) {
     std::vector<uint8_t> v;
     v.push_back(0xFE); v.push_back(0xA5); v.push_back(0x5A);
-    v.push_back((uint8_t)((k.count_default ? 1 : 0) | (k.set_default ? 2 : 0)));
+    v.push_back((uint8_t)((k.count_default ? 1 : 0) | (k.set_default ? 2 : 0) | (k.prelude ? 4 : 0)));
     put64(v, (uint64_t)k.start); put64(v, k.count); put64(v, k.n);
     put32(v, (uint32_t)k.s.size()); put32(v, (uint32_t)k.set.size()); put32(v, (uint32_t)k.sep.size());
     v.insert(v.end(), k.s.begin(), k.s.end());
@@ -395,7 +405,7 @@ int verif_case(const uint8_t *data, size_t size, Case &c) {
         // directed, long fields (written by the enumerators): 32-bit lengths, capped
         r.u8(); r.u8();
         uint8_t fl = r.u8();
-        k.count_default = fl & 1; k.set_default = (fl & 2) != 0;
+        k.count_default = fl & 1; k.set_default = (fl & 2) != 0; k.prelude = (fl & 4) != 0;
         k.start = (ll)r.bits64(); k.count = r.bits64(); k.n = r.bits64();
         size_t sl = r.bits32(), tl = r.bits32(), pl = r.bits32();
         if (sl > (1u << 18)) sl = 1u << 18;
@@ -554,6 +564,21 @@ long verif_enumerate(int shard, int nshards, int tier, verif::EnumReport &r) {
                 }
             }
         }
+    }
+    // ---- a long separator AFTER a longer one in the same process (scratch space kept from an earlier call must not be assumed to fit or to
+    // be current): pseudo-random letters, the subject holds a letter-case twin first and the separator itself later
+    if (shard == 0) {
+        static const size_t SEQ[] = {1200, 300, 257, 700, 260, 259, 65, 64, 4000, 513, 290, 289, 33};
+        const std::string A = "The quick brown fox #", B = "% jumps over the lazy dog; ", C = " and runs away.\n";
+        for (size_t L : SEQ) {
+            std::string sep(L, '\0'); uint64_t x = 0x9E3779B97F4A7C15ull ^ (L * 77);
+            for (size_t i = 0; i < L; i++) { x = x * 6364136223846793005ull + 1442695040888963407ull; sep[i] = "abcdefghijklmnopqrstuvwxyzABCDEFGHIJKLMNOPQRSTUVWXYZ"[(x >> 33) % 52]; }
+            std::string twin = sep; for (char &ch : twin) ch = (char)(ch ^ 0x20);
+            SliceCase k; k.s = A + twin + B + sep + C; k.sep = sep; k.set_default = false; k.set = "T\n"; k.prelude = true;
+            k.start = 3; k.count = (ull)L; k.count_default = false; k.n = (ull)L;
+            if (!run(k)) return r.evaluations;
+        }
+        r.exhausted.push_back("letter separators of 1200, 300, 257, 700, 260, 259, 65, 64, 4000, 513, 290, 289, 33 bytes used one after the other in one process (subject = case twin ... separator)");
     }
     // ---- positions beyond 255 and beyond 65535: a 70001-byte subject, separator planted around offset 65536 and at the very end
     {
